@@ -77,17 +77,32 @@ def facts(repo, features=None):
             if not os.path.exists(out) or os.path.getsize(out) == 0:
                 raise ToolError('the MIR driver produced no fact file (crate not compiled through the wrapper?)')
             os.makedirs(cdir, exist_ok=True)
-            old = sorted((os.path.join(cdir, x) for x in os.listdir(cdir) if x.startswith('mirfacts-')), key=os.path.getmtime)
+            def _mt(x_):
+                try:
+                    return os.path.getmtime(x_)
+                except OSError:
+                    return 0.0
+            old = sorted((os.path.join(cdir, x) for x in os.listdir(cdir) if x.startswith('mirfacts-') and x.endswith('.jsonl')), key=_mt)
             for x in old[:-40]:
-                os.remove(x)
+                try:
+                    os.remove(x)
+                except OSError:
+                    pass
             shutil.copy(out, cfile + '.tmp%d' % os.getpid())
             os.replace(cfile + '.tmp%d' % os.getpid(), cfile)
         finally:
             shutil.rmtree(tmp, ignore_errors=True)
             if not os.path.exists(cfile):
                 fcntl.flock(lock, fcntl.LOCK_UN)
-    fcntl.flock(lock, fcntl.LOCK_UN)
-    rows = [json.loads(l) for l in open(cfile) if l.strip()]
+    # read (and mark as recently used) while the lock is still held: a concurrent builder evicts the oldest entries under the lock
+    try:
+        os.utime(cfile, None)
+    except OSError:
+        pass
+    try:
+        rows = [json.loads(l) for l in open(cfile) if l.strip()]
+    finally:
+        fcntl.flock(lock, fcntl.LOCK_UN)
     _cache[ck] = rows
     return rows
 
